@@ -143,6 +143,8 @@ def is_arith(t):
 # norm
 # -------------------------------------------------------------------------------------
 
+QUERY_CANON = None  # set by rules_kernel: query string -> canonical selection term
+
 NEG_INF = ("const", "-inf")
 POS_INF = ("const", "inf")
 
@@ -200,6 +202,11 @@ def norm(t, _arith=True):  # noqa: C901, PLR0911, PLR0912
         return ("if", norm(c), a, b)
     if tag == "call":
         f = t[1]
+        if (QUERY_CANON is not None and f[0] == "attr" and f[2] == "query" and len(t[2]) == 1
+                and t[2][0][0] == "const" and isinstance(t[2][0][1], str)):
+            sel = QUERY_CANON(t[2][0][1])
+            if sel is not None:
+                return ("call", ("attr", norm(f[1]), "query"), (sel,), ())
         name = callee_name(t)
         op = lib_op(name)
         pargs = list(t[2])
